@@ -22,6 +22,8 @@ VARIABLE l
 Plain == {"linearity",                 \* f(a x + b y) = a f(x) + b f(y)
           "homogeneity",               \* f(s x) = s^d f(x) for magnitudes s from 1e-15 to 1e12, relative to s^d |f(x)|
                                        \* (d = 1 for the linear maps, d = k for the k-th invariant)
+          "representation",            \* f(x) does not depend on the in-memory representation of x (Fortran order,
+                                       \* strided view, read-only, integer-typed) and leaves the caller's array untouched
           "roundtrip",                 \* g(f(x)) = x for the inverse pairs
           "minor-major-symmetry",      \* of voigt_to_elastic_tensor(M) and of rotated tensors
           "isometry",                  \* |X(M)| = |C(M)|_F
@@ -36,6 +38,7 @@ Cond == {"polar-orthogonal",           \* R'R = I
          "polar-symmetric",            \* stretch = stretch'
          "polar-psd",                  \* min eigenvalue of the stretch >= 0
          "polar-product",              \* R.U = M (right) / V.R = M (left)
+         "polar-representation",       \* the same for the polar factors
          "polar-homogeneity"}          \* polar(s M) = (R, s U): same rotation, rescaled stretch, product s M
 UnitBudget == 1000                     \* 1e-12 in units of 1e-15
 MaxK == 1000000
